@@ -203,6 +203,10 @@ def generic_shrinks(case):
                     s = copy.deepcopy(scn)
                     s['actors'][ai][oi]['content']['size'] //= 2
                     yield s
+                if op['op'] == 'push' and len(op.get('path', '')) > 24:
+                    s = copy.deepcopy(scn)
+                    s['actors'][ai][oi]['path'] = '/data/local/tmp/p%d' % oi
+                    yield s
                 for k in ('tt', 'rt', 'cb'):
                     if k in op and op['op'] != 'connect':
                         s = copy.deepcopy(scn)
